@@ -74,6 +74,8 @@ type errPropOpts struct {
 	ErrField string
 	// Ignore: callee names whose errors need not propagate (with reason, echoed in notes).
 	Ignore map[string]string
+	// Inline: walk same-package helpers as part of the path.
+	Inline bool
 }
 
 // ruleErrProp (ERR-PROP): on every feasible path on which an error returned by
@@ -87,6 +89,9 @@ func ruleErrProp(r *Run, fn *ssa.Function, opts errPropOpts) {
 		return
 	}
 	w := &feWalker{Fn: fn, MaxPath: 20000}
+	if opts.Inline {
+		w.Inline = inlineHelpers(fn)
+	}
 	ends := w.Run()
 	if w.Aborted {
 		o.Undecide(r.pos(fn.Pos()), "path enumeration aborted")
@@ -199,7 +204,29 @@ func ruleDaemonLog(r *Run) {
 		return
 	}
 	anchor.OK("resolved").At(r.pos(pn.Pos()))
-	recv := pn.Params[0]
+	// the frame may be read by a helper method of the iterator (ff), called from parseNext (pn)
+	ff := pn
+	hasReadFull := func(f *ssa.Function) bool {
+		for _, c := range callsIn(f) {
+			if callIs(c, "io", "ReadFull") {
+				return true
+			}
+		}
+		return false
+	}
+	var ffCall *ssa.Call
+	if !hasReadFull(pn) {
+		for _, c := range callsIn(pn) {
+			call, ok := c.(*ssa.Call)
+			if !ok {
+				continue
+			}
+			if callee := staticCallee(call); callee != nil && callee.Blocks != nil && callee.Pkg == pn.Pkg && hasReadFull(callee) && len(callee.Params) > 0 && call.Call.Args[0] == ssa.Value(pn.Params[0]) {
+				ff, ffCall = callee, call
+			}
+		}
+	}
+	recv := ff.Params[0]
 	isRecvFieldAddr := func(v ssa.Value, name string) bool {
 		f, base, ok := fieldNameOf(v)
 		return ok && f == name && base == ssa.Value(recv)
@@ -237,7 +264,7 @@ func ruleDaemonLog(r *Run) {
 	}
 	// ReadFull(i.rd, i.header[:])
 	var readFull, copyN *ssa.Call
-	for _, c := range callsIn(pn) {
+	for _, c := range callsIn(ff) {
 		if call, ok := c.(*ssa.Call); ok {
 			if callIs(call, "io", "ReadFull") {
 				readFull = call
@@ -326,7 +353,7 @@ func ruleDaemonLog(r *Run) {
 
 	// typ = header[fdIndex]; frameSize = BigEndian.Uint32(header[sizeIndex:sizeIndex+4]); CopyN size = int64(frameSize)
 	var typVal, sizeCall ssa.Value
-	allInstrs(pn, func(in ssa.Instruction) {
+	allInstrs(ff, func(in ssa.Instruction) {
 		switch x := in.(type) {
 		case *ssa.IndexAddr:
 			if isRecvFieldAddr(x.X, "header") {
@@ -409,13 +436,22 @@ func ruleDaemonLog(r *Run) {
 	oo := r.Ob("PV-ORDER", "dockerlog.(*streamIter).parseNext buffer", "the frame buffer is reset before each payload read and the record body is a copy of it (String()), never an alias of the reused buffer")
 	var reset ssa.CallInstruction
 	var strCall *ssa.Call
-	for _, c := range callsIn(pn) {
+	for _, c := range callsIn(ff) {
 		if callIs(c, "bytes", "(*Buffer).Reset") && isRecvFieldAddr(c.Common().Args[0], "buf") {
 			reset = c
 		}
-		if call, ok := c.(*ssa.Call); ok && callIs(call, "bytes", "(*Buffer).String") && isRecvFieldAddr(call.Call.Args[0], "buf") {
-			strCall = call
+	}
+	for _, c := range callsIn(pn) {
+		if call, ok := c.(*ssa.Call); ok && callIs(call, "bytes", "(*Buffer).String") {
+			if f, base, ok := fieldNameOf(call.Call.Args[0]); ok && f == "buf" && base == ssa.Value(pn.Params[0]) {
+				strCall = call
+			}
 		}
+	}
+	// position of the frame read inside parseNext
+	var frameRead ssa.Instruction = copyN
+	if ffCall != nil {
+		frameRead = ffCall
 	}
 	ogood := true
 	if reset == nil || !instrDominates(reset, copyN) {
@@ -436,7 +472,7 @@ func ruleDaemonLog(r *Run) {
 			ogood = false
 			oo.Fail(r.pos(pdl.Pos()), "parseDockerLine is given %s, not i.buf.String()", describe(pdl.Call.Args[1], 0))
 		}
-		if !instrDominates(copyN, pdl) {
+		if !instrDominates(frameRead, pdl) {
 			ogood = false
 			oo.Fail(r.pos(pdl.Pos()), "the line is parsed before the payload is read")
 		}
@@ -462,7 +498,7 @@ func ruleDaemonLog(r *Run) {
 		var tag ssa.Value
 		allInstrs(pn, func(in ssa.Instruction) {
 			if b, ok := in.(*ssa.BinOp); ok && b.Op == token.EQL {
-				if c, ok := constOf(b.Y); ok && c.Kind() == constant.Int && intOf(c) == intOf(sv) && stripConv(b.X) == typVal {
+				if c, ok := constOf(b.Y); ok && c.Kind() == constant.Int && intOf(c) == intOf(sv) && (stripConv(b.X) == typVal || typeKey(b.X.Type()) == "stdType") {
 					tag = b.X
 				}
 			}
@@ -470,7 +506,7 @@ func ruleDaemonLog(r *Run) {
 		if tag == nil {
 			os.Fail(r.pos(pn.Pos()), "the stream type is never compared with systemerr")
 		} else {
-			w := &feWalker{Fn: pn, Assume: map[ssa.Value]constant.Value{tag: sv}}
+			w := &feWalker{Fn: pn, Assume: map[ssa.Value]constant.Value{tag: sv}, Inline: inlineHelpers(pn)}
 			bad := false
 			for _, e := range w.Run() {
 				reachedCopy := false
@@ -502,7 +538,7 @@ func ruleDaemonLog(r *Run) {
 	}
 
 	// ---- faults -----------------------------------------------------------
-	ruleErrProp(r, pn, errPropOpts{AllowSentinel: map[string][]string{"io.ReadFull": {"io.EOF", "io.ErrUnexpectedEOF"}}})
+	ruleErrProp(r, pn, errPropOpts{AllowSentinel: map[string][]string{"io.ReadFull": {"io.EOF", "io.ErrUnexpectedEOF"}}, Inline: true})
 	if pdlFn := p.Func(dockerlogPkg, "parseDockerLine"); pdlFn != nil {
 		ruleErrProp(r, pdlFn, errPropOpts{})
 		ruleParseDockerLine(r, pdlFn)
@@ -511,7 +547,7 @@ func ruleDaemonLog(r *Run) {
 	}
 	// the clean end is reachable only from the header read
 	oe := r.Ob("ERR-PROP", "dockerlog.(*streamIter).parseNext clean end", "(false, nil) is returned only when the header read hit EOF/ErrUnexpectedEOF; (true, nil) only after header, payload and line parsing all succeeded")
-	w := &feWalker{Fn: pn}
+	w := &feWalker{Fn: pn, Inline: inlineHelpers(pn)}
 	ebad := false
 	for _, e := range w.Run() {
 		ret, ok := e.Term.(*ssa.Return)
